@@ -23,8 +23,8 @@ import (
 	"github.com/libp2p/go-libp2p-kad-dht/internal/verifsim"
 	"github.com/libp2p/go-libp2p/core/peer"
 	"github.com/libp2p/go-libp2p/p2p/host/peerstore/pstoremem"
-	ma "github.com/multiformats/go-multiaddr"
 	"github.com/multiformats/go-base32"
+	ma "github.com/multiformats/go-multiaddr"
 	"pgregory.net/rapid"
 )
 
@@ -340,7 +340,7 @@ func runPMIL(t *testing.T, s pmIlSc) (res verifsim.Result) {
 	defer pm.Close()
 	start := time.Now()
 	key := func(i int) []byte { return c07Keys[i%3] } // few keys so that actors collide
-	model := map[kp]time.Time{}                        // acknowledged additions (valid ones)
+	model := map[kp]time.Time{}                       // acknowledged additions (valid ones)
 	for _, e := range s.Expired {
 		writeProviderEntry(ctx, d, key(e[0]), c07Peer(e[1]), start.Add(-2*c07Validity))
 	}
